@@ -17,6 +17,7 @@ import build as B
 import families as F
 import translate as T
 import translate_fn as TF
+import translate_p as TP
 
 AXIOM_ALLOW = set()   # names of standard-library axioms accepted under property theorems (none needed so far)
 
@@ -67,10 +68,12 @@ def check_proofs(pid, tier):
     res['source_tables'] = {}
     mine = [t for t, ps in T.USED_BY.items() if pid in ps]
     mine_fn = [t for t, ps in TF.USED_BY.items() if pid in ps]
-    if ok and (mine or mine_fn):
+    mine_p = [t for t, ps in TP.USED_BY.items() if pid in ps]
+    if ok and (mine or mine_fn or mine_p):
         st = T.run(only=mine) if mine else {}
-        if mine_fn: st.update(TF.run(only=mine_fn))
-        mine = mine + mine_fn
+        if mine_fn: st.update({'fn:' + k: v for k, v in TF.run(only=mine_fn).items()})
+        if mine_p: st.update({'parser:' + k: v for k, v in TP.run(only=mine_p).items()})
+        mine = mine + ['fn:' + k for k in mine_fn] + ['parser:' + k for k in mine_p]
         for t in mine:
             x = st.get(t, {'status': 'unparsed', 'reason': 'not run'})
             res['source_tables'][t] = {k: v for k, v in x.items() if k != 'file'}
@@ -82,7 +85,7 @@ def check_proofs(pid, tier):
             else:
                 res['problems'].append('the fragment `%s` translated from the Rust source is no longer the model function the theorems are about (%s fails): %s'
                                        % (t, x['theorem'], (x.get('coq_error') or 'not closed under the global context')[-500:]))
-        res['checker_cmd'] += '; tools/translate.py / translate_fn.py + coqc coq/Gen/{Src,Fn}_{%s}.v' % ','.join(mine)
+        res['checker_cmd'] += '; tools/translate.py / translate_fn.py / translate_p.py + coqc coq/Gen/{Src,Fn,P}_*.v for %s' % ','.join(mine)
     bad = B.audit_sources()
     if bad: res['problems'].append('source audit: ' + '; '.join(bad[:5]))
     if tier == 'thorough' and ok and not res['problems']:
